@@ -1926,7 +1926,10 @@ impl TestTextSelection for TextSelection {
                 if !allow_whitespace {
                     Some(self.end) == leftmost
                 } else if let Some(leftmost) = leftmost {
-                    let l = self.end - leftmost;
+                    if leftmost < self.end {
+                        return false;
+                    }
+                    let l = leftmost - self.end;
                     if l == 0 {
                         true
                     } else {
@@ -1959,7 +1962,10 @@ impl TestTextSelection for TextSelection {
                 if !allow_whitespace {
                     Some(self.begin) == rightmost
                 } else if let Some(rightmost) = rightmost {
-                    let l = rightmost - self.begin;
+                    if self.begin < rightmost {
+                        return false;
+                    }
+                    let l = self.begin - rightmost;
                     if l == 0 {
                         true
                     } else {
